@@ -93,6 +93,7 @@ func TestC06(t *testing.T) {
 		}
 		agg.AddHist(res)
 	}
+	exploreE2(t, run, agg)
 	agg.Finish(false)
 	run.Cov["violations_dropped_as_not_reproducible"] = unconfirmed
 	run.Assumptions = append(run.Assumptions,
